@@ -154,7 +154,7 @@ Proof. exact D4_regression. Qed.
    value that is cyclic for every fuel *)
 Example C02_D5_cyclic :
   exists h' A',
-    update current h5s (Some [PArr 1 0]) (HArr 1 0 2 2) [PS (Some 1%Z) None] (HArr 2 0 1 1) = Some (h', A', HArr 1 0 2 2) /\
+    update current h5s (Some [PArr 1 0]) (HArr 1 0 2 2) [PS (Some (bz 1)) None] (HArr 2 0 1 1) = Some (h', A', HArr 1 0 2 2) /\
     (forall fuel, abs fuel h' (HArr 1 0 2 2) = None) /\
     abs 5 h5s (HArr 1 0 2 2) = Some (JArr [JNum 0; JArr [JNum 1]]) /\
     abs 5 h5s (HArr 2 0 1 1) = Some (JArr [JArr [JArr [JNum 1]]]).
@@ -196,9 +196,9 @@ Print Assumptions C02_delpaths_descending.
 
 (* the slice case of C02_abs_update computes in place on an allocated array when the lengths agree *)
 Example C02_slice_in_place :
-  ok_path [PS (Some 1%Z) (Some 2%Z)] /\
+  ok_path [PS (Some (bz 1)) (Some (bz 2))] /\
   update current [OArr [HNum 1; HNum 2; HNum 3]; OArr [HNum 9]] (Some [PArr 0 0]) (HArr 0 0 3 3)
-         [PS (Some 1%Z) (Some 2%Z)] (HArr 1 0 1 1) =
+         [PS (Some (bz 1)) (Some (bz 2))] (HArr 1 0 1 1) =
   Some ([OArr [HNum 1; HNum 9; HNum 3]; OArr [HNum 9]], Some [PArr 0 0], HArr 0 0 3 3).
 Proof. split. constructor. reflexivity. Qed.
 
